@@ -64,7 +64,14 @@ def _shape(a: Any) -> int:
     return 9
 
 
-def make_function(name: str, fspec: Dict[str, Any]) -> FilterFunction:
+# A schedule point the history machine may install: called (no arguments) from inside
+# "poke" probe functions, i.e. in the middle of a filter evaluation.  It has no effect on
+# what the function returns, so the pristine golden run (no hook) computes the same.
+REENTRY_HOOK: Optional[Any] = None
+_CLASS_CACHE: Dict[str, Any] = {}
+
+
+def make_function(name: str, fspec: Dict[str, Any], env: Any = None) -> FilterFunction:
     ret, behav = fspec["ret"], fspec.get("behav", "first")
 
     def call(self: Any, *args: Any) -> Any:
@@ -74,6 +81,15 @@ def make_function(name: str, fspec: Dict[str, Any]) -> FilterFunction:
             self.fired += 1
             FIRED_BY.append(threading.get_ident())
             raise ProbeFault(f"{name} call {self.calls}")
+        if behav == "poke" and REENTRY_HOOK is not None:
+            REENTRY_HOOK()
+        if behav == "reenter" and self.env is not None:
+            # a complete nested evaluation on the same environment in the middle of this one
+            n = len(self.env.find(fspec.get("rq", "$..a"), fspec.get("rdoc", {"a": [{"a": 1}, 2], "b": {"a": 3}})))
+            if ret == "V":
+                return n
+            if ret == "L":
+                return n > 0
         if ret == "N":
             for a in args:
                 if isinstance(a, jp.JSONPathNodeList):
@@ -104,16 +120,17 @@ def make_function(name: str, fspec: Dict[str, Any]) -> FilterFunction:
             return int(a)
         return a
 
-    cls = type(
-        f"Probe_{name}",
-        (FilterFunction,),
-        {
-            "arg_types": [T[a] for a in fspec["args"]],
-            "return_type": T[ret],
-            "__call__": call,
-        },
-    )
+    # Users register the same FilterFunction class (or subclasses sharing the parent's
+    # class-level arg_types list) on several environments: share the list object between
+    # all probe classes with the same argument signature.
+    sig = ",".join(fspec["args"])
+    base = _CLASS_CACHE.get(sig)
+    if base is None:
+        base = type(f"ProbeBase_{sig or 'none'}", (FilterFunction,), {"arg_types": [T[a] for a in fspec["args"]], "return_type": T["V"], "__call__": lambda self, *a: None})
+        _CLASS_CACHE[sig] = base
+    cls = type(f"Probe_{name}", (base,), {"return_type": T[ret], "__call__": call})
     inst = cls()
+    inst.env = env
     inst.calls = 0
     inst.fault_at = None
     inst.fired = 0
@@ -135,7 +152,7 @@ def make_env(spec: Dict[str, Any]) -> jp.JSONPathEnvironment:
             def setup_function_extensions(self: Any) -> None:
                 jp.JSONPathEnvironment.setup_function_extensions(self)
                 for name, fspec in setup:
-                    self.function_extensions[name] = make_function(name, fspec)
+                    self.function_extensions[name] = make_function(name, fspec, self)
 
             ns["setup_function_extensions"] = setup_function_extensions
         cls = type("SimEnv", (jp.JSONPathEnvironment,), ns)
@@ -143,7 +160,7 @@ def make_env(spec: Dict[str, Any]) -> jp.JSONPathEnvironment:
     else:
         env = jp.JSONPathEnvironment()
     for name, fspec in spec.get("funcs") or []:
-        env.function_extensions[name] = make_function(name, fspec)
+        env.function_extensions[name] = make_function(name, fspec, env)
     return env
 
 
@@ -180,14 +197,19 @@ def call(env: jp.JSONPathEnvironment, compiled: Any, q: str, doc: Any, entry: st
     raise ValueError((entry, form))
 
 
-def outcome_of_call(fn: Any, entry: str, doc_root: Any = None) -> Dict[str, Any]:
-    """Canonical outcome {"nodes": [...], "end": "stop"|<ExcClass>, "ident": bool}."""
+def outcome_of_call(fn: Any, entry: str, doc_root: Any = None, keep: Optional[List[Any]] = None, raw: Optional[List[Any]] = None) -> Dict[str, Any]:
+    """Canonical outcome {"nodes": [...], "end": "stop"|<ExcClass>, "ident": bool}.
+
+    keep: if given, the returned node objects themselves are appended to it (so the
+    caller can check later that they have not been changed by later calls)."""
     nodes: List[Any] = []
     ident = True
 
     def add(n: Any) -> None:
         nonlocal ident
         nodes.append(canon_node(n))
+        if keep is not None:
+            keep.append(n)
         if doc_root is not None:
             try:
                 at = D.get(doc_root, n.location)
@@ -198,6 +220,8 @@ def outcome_of_call(fn: Any, entry: str, doc_root: Any = None) -> Dict[str, Any]
 
     try:
         res = fn()
+        if raw is not None:
+            raw.append(res)
         if entry == "finditer":
             for n in res:
                 add(n)
